@@ -117,6 +117,18 @@ def h_op(n, opname, m=0, light=False):
         if opname == 'int2ba':
             signed = K.bool('signed')
             return _differential(K, x, lambda a, v: U.int2ba(v, length=max(n, 1), signed=signed), [K.int('v', -(1 << n) - 2, (1 << n) + 2)])
+        if opname == 'int-roundtrip':
+            # the provenance shortcuts of the symbolic branch (ba2int(int2ba(v)) -> v, also after concatenation and slicing)
+            signed = K.bool('signed')
+            nn = max(n, 1)
+
+            def f(a, v):
+                b = U.int2ba(v, length=nn, signed=signed)
+                c = bitarray.bitarray('01') + b + a
+                d = c[2:2 + nn]
+                return [U.ba2int(b, signed=signed), U.ba2int(d, signed=signed), U.ba2int(b, signed=not signed), U.int2ba(U.ba2int(a, signed=signed), length=len(a), signed=signed) if len(a) else None]
+            lo, hi = (-(1 << (nn - 1)), (1 << (nn - 1)) - 1) if signed else (0, (1 << nn) - 1)
+            return _differential(K, x, f, [K.int('v', lo, hi)])
         if opname == 'hex2ba':
             t = K.chars('t', m, 32, 127)
             r1 = call(lambda: (U.hex2ba(t), U.base2ba(8, t), bitarray.bitarray(t)))
@@ -154,6 +166,7 @@ def conditions(tier):
             for op in ['find', 'rfind', 'search', 'rsearch']:
                 add(op, n, m)
         add('int2ba', n)
+        add('int-roundtrip', n)
     add('unary', 8)
     for m in ([1] if q else [0, 1, 2]):
         add('hex2ba', 0, m)
